@@ -338,6 +338,46 @@ PROPS["C19"] = {
     "assumptions": ["the composition of component contracts in E2E.step matches how the components are wired (read from orchestrate/, buffer/, output/)"],
 }
 
+PROPS["C07"] = {
+    "modules": ["SlogModel.Props.C07"],
+    "components": [("pipe-c07", 1500, 30000), ("agent-c07", 30, 300)],
+    "rule": "pipe: one case = one real record path (syslog parser with limits 60/200/2000 and two level mappings, a generated "
+            "transform program over a 15-field schema fed by the parsed fields, the Fluentd event serializer with environment / "
+            "hidden fields and unescape rewriters) processing 8 lines - the parser's hostile corpus, binary garbage behind a valid "
+            "PRI, NIL / short / empty timestamps, long repeated values, ordinary records - then a well-formed sentinel; each "
+            "outcome (rejected / filtered / serialized bytes) is compared with Pipe.process. agent: one case = one end-to-end run "
+            "with three extra client connections sending malformed headers, NIL and short timestamps, 70 kB host fields, 300 kB "
+            "messages, invalid UTF-8, binary garbage, a reset and a disconnect inside a record, next to ordinary clients whose "
+            "records must all be delivered unaltered; distinct by ops; all non-trivial",
+    "level_text": "C07_pipeline_total (for every byte string, receive time and sampler state the parse -> transform -> serialize "
+                  "path of Pipe.process returns - rejected, filtered or serialized - never a panic; composed from C09_total, "
+                  "XT.runSteps_total for every program the configuration check accepts, and the serializer model) and "
+                  "C07_stream_total (every sequence of lines is processed to its end, one outcome per line). Framing and timestamp "
+                  "totality are C08 / C13. Tie: outcome-by-outcome comparison of the real record path with the composed model on "
+                  "generated programs and hostile lines; end-to-end hostile TCP streams with sentinel delivery.",
+    "level_note": "Trusted: Lean kernel + 3 standard axioms; regexp-based transforms are opaque in the model (their Go code is "
+                  "exercised by the agent runs only); the chunk maker and the output side are C11 / C02. PARTIAL: 'keeps accepting "
+                  "connections' is observed by the end-to-end runs (later generations connect), not modelled.",
+    "partial": "listener liveness observed, not modelled; regexp transforms opaque",
+    "assumptions": ["the transform program is one the configuration check accepts (C16_verify_sound)"],
+}
+
+PROPS["C12"] = {
+    "modules": ["SlogModel.Props.C12"],
+    "components": [("pipe-c12", 1500, 30000)],
+    "rule": "one case = one long-lived real record path (pooled records and backing buffers, released after every record) "
+            "processing 9 lines of mixed size and shape; every line is processed again on a freshly built path; both outcomes must "
+            "be identical (unless the program samples by percentage) and equal to Pipe.process; distinct by ops; all non-trivial",
+    "level_text": "runSteps_stateless (a transform program without percentage sampling returns the state it was given and its "
+                  "result does not depend on it; mutual induction over steps and switch cases), process_stateless and "
+                  "C12_isolated (the outcome of a line after any sequence of other lines equals its outcome on a fresh pipeline). "
+                  "Tie: long-lived versus fresh real pipelines and the composed model, record by record; pooled-record layouts, "
+                  "second serialization and live-chunk aliasing are covered by the C10 / C11 harnesses.",
+    "level_note": "Trusted: Lean kernel + 3 standard axioms. The models have no pooling - that is exactly what the "
+                  "correspondence (not the theorems) decides; multi-output runs serialize each record twice in the C10 harness.",
+    "assumptions": ["percentage sampling is the only documented cross-record state"],
+}
+
 NOT_APPLICABLE = {k: "check not built yet in this round (planned in DESIGN.md section 6); no claim is made" for k in
                   ["C%02d" % i for i in range(1, 20)]}
 
